@@ -228,3 +228,101 @@ ROUND3_MUTANTS += [
 ]
 TWINS = TWINS + ROUND3_TWINS
 MUTANTS = MUTANTS + ROUND3_MUTANTS
+
+# ---------------------------------------------------------------------------------------------------------------------
+# robustness round 3 (held-out set 7-9): decision and action separated - what to store is computed into a local first,
+# a sentinel (module-level private object, a local object(), Ellipsis, a tag / flag) meaning "remove", then one single
+# pop-or-assign; identity with the sentinel is decided by which binding reached the test
+_CV_CHAIN = (
+    "        if type is bool:\n            if value:\n                self[key] = None\n            else:\n                self.pop(key, None)\n"
+    "        elif value is None or value is False:\n            self.pop(key, None)\n        elif value is True:\n            self[key] = None\n        else:\n"
+    "            if type is not None:\n                value = type(value)\n\n            self[key] = str(value)\n"
+)
+_CV_IMPORT = ("from .mixins import ImmutableDictMixin\n", "from .._internal import _missing\nfrom .mixins import ImmutableDictMixin\n")
+_CV_DECIDE = (
+    "        if type is bool:\n            stored = None if value else _missing\n        elif value is None or value is False:\n            stored = _missing\n"
+    "        elif value is True:\n            stored = None\n        else:\n            stored = str(value if type is None else type(value))\n\n"
+)
+_CV_APPLY = "        if stored is _missing:\n            self.pop(key, None)\n        else:\n            self[key] = stored\n"
+_CV_SENTINEL = _CV_DECIDE + _CV_APPLY
+_CV_DEFAULT_FIRST = (
+    "        stored: t.Any = _missing\n\n        if type is bool:\n            if value:\n                stored = None\n        elif value is True:\n            stored = None\n"
+    "        elif value is not None and value is not False:\n            if type is not None:\n                value = type(value)\n            stored = str(value)\n\n"
+    "        if stored is not _missing:\n            self[key] = stored\n        else:\n            self.pop(key, None)\n"
+)
+_CV_HELPER = (
+    "        if type is bool:\n            self._apply(key, None if value else _missing)\n        elif value is None or value is False:\n            self._apply(key, _missing)\n"
+    "        elif value is True:\n            self._apply(key, None)\n        else:\n            self._apply(key, str(value if type is None else type(value)))\n\n"
+    "    def _apply(self, key: str, stored: t.Any) -> None:\n" + _CV_APPLY
+)
+_CV_TAG = (
+    "        if type is bool:\n            action, stored = (\"set\", None) if value else (\"remove\", None)\n        elif value is None or value is False:\n            action, stored = \"remove\", None\n"
+    "        elif value is True:\n            action, stored = \"set\", None\n        else:\n            action, stored = \"set\", str(value if type is None else type(value))\n\n"
+    "        if action == \"remove\":\n            self.pop(key, None)\n        else:\n            self[key] = stored\n"
+)
+_CR_CB = "        def on_update(rng: ContentRange) -> None:\n            if not rng:\n                del self.headers[\"content-range\"]\n            else:\n                self.headers[\"Content-Range\"] = rng.to_header()\n"
+_CR_CB_SENTINEL = (
+    "        def on_update(rng: ContentRange) -> None:\n            text = rng.to_header() if rng else _missing\n\n            if text is _missing:\n"
+    "                del self.headers[\"content-range\"]\n            else:\n                self.headers[\"Content-Range\"] = text\n"
+)
+_CSP_CB = "        def on_update(csp: ContentSecurityPolicy) -> None:\n            if not csp:\n                del self.headers[\"content-security-policy\"]\n            else:\n                self.headers[\"Content-Security-Policy\"] = csp.to_header()\n\n        rv = parse_csp_header(self.headers.get(\"content-security-policy\"), on_update)\n"
+_CSP_CB_SENTINEL = (
+    "        def on_update(csp: ContentSecurityPolicy) -> None:\n            text = csp.to_header() if csp else _missing\n\n            if text is not _missing:\n"
+    "                self.headers[\"Content-Security-Policy\"] = text\n            else:\n                del self.headers[\"content-security-policy\"]\n\n        rv = parse_csp_header(self.headers.get(\"content-security-policy\"), on_update)\n"
+)
+_R_IMPORT = ("from ..utils import header_property\n", "from ..utils import header_property\nfrom .._internal import _missing\n")
+_WA_SETITEM = "        if value is None:\n            if key in self.parameters:\n                del self.parameters[key]\n        else:\n            self.parameters[key] = value\n\n        self._trigger_on_update()\n"
+
+ROUND4_TWINS = [
+    {"name": "cache-value-sentinel-local-then-single-action", "edits": [(CC, _CV_CHAIN, _CV_SENTINEL), (CC,) + _CV_IMPORT]},
+    {"name": "cache-value-sentinel-default-first-positive-test", "edits": [(CC, _CV_CHAIN, _CV_DEFAULT_FIRST), (CC,) + _CV_IMPORT]},
+    {"name": "cache-value-sentinel-early-return-after-remove", "edits": [(CC, _CV_CHAIN, _CV_DECIDE + "        if stored is _missing:\n            self.pop(key, None)\n            return\n\n        self[key] = stored\n"), (CC,) + _CV_IMPORT]},
+    {"name": "cache-value-sentinel-handed-to-apply-method", "edits": [(CC, _CV_CHAIN, _CV_HELPER), (CC,) + _CV_IMPORT]},
+    {"name": "cache-value-sentinel-compared-with-eq", "edits": [(CC, _CV_CHAIN, _CV_SENTINEL.replace("stored is _missing", "stored == _missing")), (CC,) + _CV_IMPORT]},
+    {"name": "cache-value-module-private-remove-marker", "edits": [
+        (CC, _CV_CHAIN, _CV_SENTINEL.replace("_missing", "_REMOVE")),
+        (CC, "class _CacheControl(CallbackDict[str, t.Optional[str]]):\n", "class _Remove:\n    pass\n\n\n_REMOVE = _Remove()\n\n\nclass _CacheControl(CallbackDict[str, t.Optional[str]]):\n"),
+    ]},
+    {"name": "cache-value-local-object-marker", "edits": [(CC, _CV_CHAIN, "        remove = object()\n\n" + _CV_SENTINEL.replace("_missing", "remove"))]},
+    {"name": "cache-value-ellipsis-marker", "edits": [(CC, _CV_CHAIN, _CV_SENTINEL.replace("_missing", "..."))]},
+    {"name": "cache-value-action-tag-and-value-tuple", "edits": [(CC, _CV_CHAIN, _CV_TAG)]},
+    {"name": "content-range-writeback-sentinel-local", "edits": [(R, _CR_CB, _CR_CB_SENTINEL), (R,) + _R_IMPORT]},
+    {"name": "csp-writeback-sentinel-local-positive-test", "edits": [(R, _CSP_CB, _CSP_CB_SENTINEL), (R,) + _R_IMPORT]},
+    {"name": "wwwauth-setitem-sentinel-local-pop", "edits": [
+        (A, _WA_SETITEM, "        stored = _missing if value is None else value\n\n        if stored is _missing:\n            self.parameters.pop(key, None)\n        else:\n            self.parameters[key] = stored\n\n        self._trigger_on_update()\n"),
+        (A, "import typing as t\n", "import typing as t\n\nfrom .._internal import _missing\n"),
+    ]},
+]
+
+
+def _derive4(twin_name, repl):
+    base = next(t_ for t_ in ROUND4_TWINS if t_["name"] == twin_name)
+    out = []
+    hit = 0
+    for f, old, new in base["edits"]:
+        for a, b in repl:
+            if a in new:
+                assert new.count(a) == 1, (twin_name, a)
+                new = new.replace(a, b)
+                hit += 1
+        out.append((f, old, new))
+    assert hit == len(repl), (twin_name, repl)
+    return out
+
+
+ROUND4_MUTANTS = [
+    {"name": "shape:sentinel-arms-swapped-for-bool-directive", "expect": "R16.6", "edits": _derive4("cache-value-sentinel-local-then-single-action", [("stored = None if value else _missing", "stored = _missing if value else None")])},
+    {"name": "shape:sentinel-test-negated", "expect": "R16.6", "edits": _derive4("cache-value-sentinel-local-then-single-action", [("        if stored is _missing:\n", "        if stored is not _missing:\n")])},
+    {"name": "shape:sentinel-stored-for-true", "expect": "R16.6", "edits": _derive4("cache-value-sentinel-local-then-single-action", [("        elif value is True:\n            stored = None\n", "        elif value is True:\n            stored = _missing\n")])},
+    {"name": "shape:sentinel-false-no-longer-removes", "expect": "R16.6", "edits": _derive4("cache-value-sentinel-local-then-single-action", [("elif value is None or value is False:", "elif value is None:")])},
+    {"name": "shape:sentinel-value-stored-without-str", "expect": "R16.6", "edits": _derive4("cache-value-sentinel-local-then-single-action", [("stored = str(value if type is None else type(value))", "stored = value if type is None else type(value)")])},
+    {"name": "shape:default-first-forgets-true", "expect": "R16.6", "edits": _derive4("cache-value-sentinel-default-first-positive-test", [("        elif value is True:\n            stored = None\n", ""), ("elif value is not None and value is not False:", "elif value is not None and value is not False and value is not True:")])},
+    {"name": "shape:apply-method-gets-sentinel-for-true", "expect": "R16.6", "edits": _derive4("cache-value-sentinel-handed-to-apply-method", [("        elif value is True:\n            self._apply(key, None)\n", "        elif value is True:\n            self._apply(key, _missing)\n")])},
+    {"name": "shape:local-object-marker-compared-with-a-second-object", "expect": "R16.6", "edits": _derive4("cache-value-local-object-marker", [("        if stored is remove:\n", "        if stored is object():\n")])},
+    {"name": "shape:ellipsis-marker-for-truthy-bool", "expect": "R16.6", "edits": _derive4("cache-value-ellipsis-marker", [("stored = None if value else ...", "stored = ... if value else None")])},
+    {"name": "shape:action-tag-misspelled", "expect": "R16.6", "edits": _derive4("cache-value-action-tag-and-value-tuple", [("        if action == \"remove\":\n", "        if action == \"delete\":\n")])},
+    {"name": "shape:content-range-writeback-sentinel-test-flipped", "expect": "R16.5", "edits": _derive4("content-range-writeback-sentinel-local", [("            if text is _missing:\n", "            if text is not _missing:\n")])},
+    {"name": "shape:csp-writeback-sentinel-arms-swapped", "expect": "R16.5", "edits": _derive4("csp-writeback-sentinel-local-positive-test", [("text = csp.to_header() if csp else _missing", "text = _missing if csp else csp.to_header()")])},
+]
+TWINS = TWINS + ROUND4_TWINS
+MUTANTS = MUTANTS + ROUND4_MUTANTS
